@@ -110,6 +110,15 @@ v("c08-select-shortcut","C08","qframe.go","	newColumnsByName := make(map[string]
 v("b-select-checked-shortcut","C08","qframe.go","	newColumnsByName := make(map[string]namedColumn, len(columns))\n	newColumns := make([]namedColumn, len(columns))\n	for i, col := range columns {","	same := len(columns) == len(qf.columns)\n	for i := 0; same && i < len(columns); i++ {\n		same = columns[i] == qf.columns[i].name\n	}\n	if same {\n		return qf\n	}\n\n	newColumnsByName := make(map[string]namedColumn, len(columns))\n	newColumns := make([]namedColumn, len(columns))\n	for i, col := range columns {","","benign","identity shortcut that actually compares the requested names in order")
 v("c07-expr-inplace","C07","expression.go","	newArgs := make([]interface{}, len(args)-1)\n	newArgs[0] = newExpr([]interface{}{name, args[0], args[1]})\n	copy(newArgs[1:], args[2:])\n	return Expr(name, newArgs...)","	args[1] = newExpr([]interface{}{name, args[0], args[1]})\n	return Expr(name, args[1:]...)","R1x")
 
+
+# ---- round 2b rules ----
+v("c15-eof-overwrite","C15","internal/fastcsv/csv.go","		if r.fields.err == nil {\n			r.fields.err = io.EOF\n		}\n		return false","		r.fields.err = io.EOF\n		return false","R56")
+v("c12-short-read-eof","C12","internal/fastcsv/csv.go","	c, err := r.r.Read(b)\n	if err == io.EOF && c > 0 {","	c, err := r.r.Read(b)\n	if c < len(b) {\n		r.isEof = true\n	}\n	if err == io.EOF && c > 0 {","R61")
+v("c18-trim-cutset","C18","internal/strings/match.go","	s = strings.TrimPrefix(s, \"%\")\n	s = strings.TrimSuffix(s, \"%\")\n	return s","	return strings.Trim(s, \"%\")","R59")
+v("c14-int-fastpath","C14","internal/fcolumn/column.go","	return ryu.AppendFloat64f(buf, value)","	if value == math.Trunc(value) && math.Abs(value) < 1e15 {\n		return strconv.AppendInt(buf, int64(value), 10)\n	}\n\n	return ryu.AppendFloat64f(buf, value)","R58")
+v("c13-declared-254","C13","internal/ecolumn/column.go","	if len(values) > maxCardinality {\n		return nil, qerrors.New(\"New enum\"","	if len(values) >= maxCardinality {\n		return nil, qerrors.New(\"New enum\"","R34")
+v("c19-stmt-cache","C19","internal/io/sql/stmt.go","func Insert(colNames []string, conf SQLConfig) string {\n	buf := bytes.NewBuffer(nil)","var lastStmt = map[string]string{}\n\nfunc Insert(colNames []string, conf SQLConfig) string {\n	if s, ok := lastStmt[conf.Table]; ok {\n		return s\n	}\n	defer func() { lastStmt[conf.Table] = \"\" }()\n	buf := bytes.NewBuffer(nil)","R1w")
+
 json.dump({"variants":V},open('/verif/qfcheck/variants/catalogue.json','w'),indent=1)
 import os
 bad=0
